@@ -121,7 +121,7 @@ func partC04H(a *hcli.Args, rep *report.Report, univName string, u *schema.Unive
 	}
 	strs := shortStrings(sigma, L)
 	subst := []byte{'(', ')', ',', ':', '"', '{', '}', '[', ']', '\\', 0x00, 0xff, '%', '&', '=', ' '}
-	sq.Bounds = fmt.Sprintf("every method of every resource: the valid request sent by the generated client with (a) an extra query parameter whose value is each of the %d strings of <=%d symbols over %v, the whole query replaced by each of them, every truncation / single-byte edit of the valid query; (b) the entity key segment replaced by each of the strings, every key position of the path replaced on its own and every pair of key positions replaced together by all pairs of strings of <=2 symbols; (c) every truncation and single-byte deletion / substitution (%d bytes) of the JSON body; (d) method / content-type / protocol-version header variants; (e) tunnelled envelopes (both parts, one part missing, none, foreign part, doubled, unterminated, truncated every 7 bytes, form-encoded, no boundary); oracle: no panic escapes, status < 500, no stack trace; when a declared parameter loses its parenthesis balance, or the body is a non-empty strict prefix that is not JSON: 4xx and no resource invocation", len(strs), L, sigma, len(subst))
+	sq.Bounds = fmt.Sprintf("every method of every resource: the valid request sent by the generated client with (a) an extra query parameter whose value is each of the %d strings of <=%d symbols over %v, the whole query replaced by each of them, every truncation / single-byte edit of the valid query; (b) the entity key segment replaced by each of the strings, the entity key dropped from / added to the path, every key position of the path replaced on its own and every pair of key positions replaced together by all pairs of strings of <=2 symbols; (c) every truncation and single-byte deletion / substitution (%d bytes) of the JSON body; (d) method / content-type / protocol-version header variants; (e) tunnelled envelopes (both parts, one part missing, none, foreign part, doubled, unterminated, truncated every 7 bytes, form-encoded, no boundary); oracle: no panic escapes, status < 500, no stack trace; when a declared parameter loses its parenthesis balance, or the body is a non-empty strict prefix that is not JSON: 4xx and no resource invocation", len(strs), L, sigma, len(subst))
 	sr.Bounds = "every method of every resource: the valid response with every truncation / single-byte edit of its body, X-RestLi-Id and Location replaced by each short ROR2 string, error-header / status / content-type variants; oracle: the generated client call returns (value or error) and never panics"
 	w := NewWorld(u, DefaultConfig)
 	failq := func(kind string, r *schema.Resource, m *schema.Method, what, detail string, raw []byte) {
@@ -243,6 +243,15 @@ func partC04H(a *hcli.Args, rep *report.Report, univName string, u *schema.Unive
 						out[i] = v
 					}
 					return "/" + strings.Join(out, "/")
+				}
+				// the entity key missing where the method needs one / present where it must not be: refused, never routed
+				if last := r.Segments[len(r.Segments)-1]; last.KeyName != "" {
+					if m.OnEntity && len(keyPos) > 0 && keyPos[len(keyPos)-1] == len(segs)-1 {
+						send("path-entity-key-dropped", joinRaw(verb+" "+mkTarget("/"+strings.Join(segs[:len(segs)-1], "/"), query)+" "+proto, headers, body), true)
+					}
+					if !m.OnEntity {
+						send("path-entity-key-added", joinRaw(verb+" "+mkTarget(path+"/surplus1", query)+" "+proto, headers, body), true)
+					}
 				}
 				short := shortStrings(sigma, 2)
 				for _, kp := range keyPos {
